@@ -121,6 +121,7 @@ inductive LErr
   | root | ts | nextVal | internal
   | proposerMismatch | nonSequencer | foreignSequencer | validatorSet | unbonded | revision | misbehaviourDisabled | nestedDisabled
   | chanExists | chanUnknown | ibc | noSigner | unbondBlocked | forkNoClient | forkNoCons | resolveHeight | staleDesc
+  | mixedTx      -- a message the light-client decorator checks travels with a message that is not an ibc core message
   | core (e : Core.Err)
   deriving DecidableEq, Repr, Inhabited
 
